@@ -80,7 +80,7 @@ func (e *Engine) syncMapOf(c *Cell) *MapVal {
 	m := e.syncMaps[c]
 	if m == nil {
 		e.mapN++
-		m = &MapVal{ID: e.mapN}
+		m = &MapVal{ID: e.mapN, Sync: true}
 		if e.ev != nil && e.ev.active {
 			if n, ok := e.cellName(c); ok {
 				// a sync.Map first touched by a thread: shared, named after its cell
@@ -247,7 +247,7 @@ func (e *Engine) intercept(fr *frame, fn *ssa.Function, args []Value) (Value, bo
 				if idx >= 0 {
 					kr := e.ev.reg.mapKeys[n][idx]
 					kv = kr.val
-					_, vv = e.evMapLookup(fr, n, kr.val)
+					_, vv = e.evMapLookup2(fr, n, kr.val, true)
 				}
 				e.endAtomic()
 				if idx < 0 {
